@@ -185,7 +185,8 @@ class History:
         if op == "pbuild":
             return t in self.last_solve and all(len(be.own_cells) == 2 for be in self.fsys.frames[t].internal_big_edges)
         if op == "psolve":
-            return t in self.pbasis
+            # the pressure solution is only specified for a connected interface graph (C04)
+            return t in self.pbasis and infer.interface_graph_connected(self.fsys.pressure_matrices[t].lhs_matrix)
         return True
 
     def normalise(self, step):
